@@ -152,4 +152,10 @@ def all_cases(tier, rng):
         cases += layer_b(2)
         cases += layer_b(3)
         cases += layer_c(rng, 20000, maxlen=6)
-    return cases
+    # layer D: the same sessions while a (blocking) dask Client is the process-wide default client: all of layer A
+    # and a sample of the others
+    extra = [dict(c, client=True, layer="D") for c in cases if c.get("layer") == "A"]
+    others = [c for c in cases if c.get("layer") != "A"]
+    k = max(1, len(others) // (300 if tier == "quick" else 3000))
+    extra += [dict(c, client=True, layer="D") for c in others[::k]]
+    return cases + extra
